@@ -38,7 +38,8 @@ PRECISIONS = (1, 4, 12) if os.environ.get("VERIF_TIER") != "thorough" else tuple
 @summary_provider("float_to_str")
 def _float_to_str_summary():
     """contract of float_to_str(f): a plain-decimal text whose value is within 10^-d of f, d = precision.decimals
-    (the body slices Python's str(float); it is checked against this contract on real floats by the bounded layer)"""
+    (the body slices Python's str(float); the contract is discharged on that body by contracts/c01_f2s.py over a text model
+    of str(float), and evaluated on real floats by the bounded layer)"""
     from pyvc.xmlmodel import NumText
 
     F2S = z3.Function("float_to_str_value", z3.RealSort(), z3.IntSort(), z3.RealSort())
@@ -66,7 +67,7 @@ def _float_to_str_summary():
             if d2 == int(d):
                 ctx.lazy_axioms.append(z3.And(z3.Implies(ft <= f2, r <= r2), z3.Implies(f2 <= ft, r2 <= r)))
         seen.append((ft, int(d), r))
-        ctx.used_models.add("contract of float_to_str: plain decimal text, a monotone function of the value, within 10^-d of it (bounded check on real floats)")
+        ctx.used_models.add("callee contract used instead of body: float_to_str -- plain decimal text, a monotone function of the value, within 10^-d of it, a truncation towards zero outside the exponent range (each clause DISCHARGED on the real body per decimal precision by contracts/c01_f2s.py, relative to the text model T1-T3 of str(float) / format(); T1-T3 and the contract are also evaluated on real floats by the bounded layer)")
         return NumText(Sym(r, float), "plain", f)
 
     return {W + "float_to_str": summ}
